@@ -240,6 +240,11 @@ def check(pid, tier, replay_only=None):
                     if not mine:
                         notes.append('kani %s: failed checks belong to other properties: %s' % (full, [c['description'] for c in x['failed_checks']]))
                         continue
+                    if kani_viol:
+                        # one replayed failing input per property run is enough; further failing harnesses are listed only
+                        notes.append('kani %s also failed (%s); not replayed, a failing input is already attached' % (full, mine[0]['description']))
+                        kani_viol[0].setdefault('also_failed', []).append({'harness': full, 'checks': mine})
+                        continue
                     cands, cout = kani_run.concrete_values(scratch, full)
                     if cands is None:
                         undecided.append('kani %s failed (%s) but no concrete values were produced' % (full, mine[0]['description']))
@@ -275,7 +280,7 @@ def check(pid, tier, replay_only=None):
             rp = os.path.join(REPLAY, '%s-%d.json' % (pid, n))
             json.dump({'property': pid, 'kind': 'kani-counterexample-replayed-natively', 'key': key, 'harness': kv['harness'],
                        'harness_file': 'kani/harness/' + kv['file'], 'failed_checks': kv['checks'], 'values': kv['values'],
-                       'native_panic': kv['native_panic'], 'bound': kv['bound'],
+                       'native_panic': kv['native_panic'], 'bound': kv['bound'], 'also_failed_not_replayed': kv.get('also_failed', []),
                        'how_to_replay': 'bin/check %s --replay %s' % (pid, rp)}, open(rp, 'w'), indent=1)
             violations.append({'key': key, 'replay': rp, 'has_input': True})
         for uname, f in verus_viol:
